@@ -702,6 +702,13 @@ func (w *Worker) doTaskAttempt(
 		case RecordFlagNack:
 			err := acker.Nack(ctx, subBatch, t.ID())
 			if err != nil {
+				if _, isProc := t.(*ProcessorTask); isProc {
+					// A processor error the DLQ did not absorb is deterministic:
+					// a recovery restart re-reads the same record and fails the
+					// same way, forever (default MaxRetries is infinite). Degrade
+					// instead, as pkg/lifecycle/stream.ProcessorNode does.
+					return cerrors.FatalError(err)
+				}
 				return err
 			}
 		case RecordFlagRetry:
